@@ -83,6 +83,23 @@ def native_snr(ck):
 
     rng = np.random.default_rng(ck.seed)
     n = 0
+    # the noise term has one value per bin of the band -- the same bins the field and the antenna response use --, and a bin's value does not
+    # depend on which other bins the band contains (bands starting at 0 MHz included)
+    from nuspacesim.simulation.eas_radio.radio_antenna import noise_voltage, voltage_from_field
+
+    for lo, hi in ((0.0, 100.0), (0.0, 20.0), (30.0, 300.0), (10.0, 60.0), (1630.0, 1650.0)):
+        fr = np.arange(lo, hi, 10.0) + 5.0
+        n += 1
+        try:
+            nv = np.asarray(noise_voltage(fr.copy(), 525.0), dtype=float)
+            vs = np.asarray(voltage_from_field(np.ones((2, fr.size)) * 1e-4, fr.copy(), 1.8), dtype=float)
+            per_bin = np.array([np.asarray(noise_voltage(np.array([f, f + 10.0]), 525.0), dtype=float)[0] for f in fr])
+            okn = nv.shape == fr.shape and vs.shape == (2, fr.size) and np.all(np.isfinite(nv)) and np.all(nv > 0) and np.allclose(nv, per_bin, rtol=1e-12)
+            obs = {"noise bins": list(nv.shape), "field bins": int(fr.size), "antenna-response bins": list(vs.shape)}
+        except Exception as ex:
+            okn, obs = False, "raised %r" % ex
+        if not okn:
+            return {"violated": True, "input": {"band": [lo, hi], "h_obs": 525.0}, "observed": obs, "clause": "the noise voltage has one finite positive value per 10 MHz bin of the band, aligned with the field and antenna-response bins"}
     for lo, hi in ((30.0, 300.0), (300.0, 1000.0), (200.0, 1200.0), (30.0, 80.0), (0.0, 1650.0)):
         nb = int((hi - lo) // 10)
         for h, N, G in ((525.0, 10, 1.8), (33.0, 1, 10.0), (400.0, 4, 3.0)):
@@ -257,6 +274,34 @@ def radio_config(lo=30.0, hi=300.0, alt=525.0):
         c.simulation.ionosphere = None  # its per-element random scale is covered symbolically; keeps the fed random numbers to two draws
         _RADIO[key] = c
     return _RADIO[key]
+
+
+def ionosphere_table(ck):
+    """every supported (band, TEC) row of the shipped ionosphere table gives a finite, positive scaling for every admissible TEC error -- the
+    field of an event stays finite whatever supported configuration is chosen"""
+    import contextlib
+    import io
+
+    from nuspacesim.simulation.eas_radio.radio import IonosphereParams
+
+    fails, n = [], 0
+    for band in ((30, 80), (30, 300), (300, 1000), (200, 1200)):
+        for tec in (1, 5, 10, 50, 100, 150):
+            for err in (0.0, 0.5, 10.0):
+                n += 1
+                try:
+                    with contextlib.redirect_stdout(io.StringIO()), np.errstate(all="ignore"):
+                        ion = IonosphereParams(band, err, tec)
+                        np.random.seed(ck.seed + 3)
+                        sc_ = np.asarray(ion(np.ones((3, 4))), dtype=float)
+                    ok = ion.params_exist and np.all(np.isfinite(sc_)) and np.all(sc_ > 0) and np.all(sc_ <= 1.5)
+                    obs = {"parameters found": bool(ion.params_exist), "scaling": np.broadcast_to(sc_, (3, 4))[0][:2].tolist(), "fit parameters": np.asarray(getattr(ion, "params", []), dtype=float).tolist()}
+                except Exception as ex:
+                    ok, obs = False, "raised %r" % ex
+                if not ok:
+                    fails.append({"obligation": "bounded.ionosphere_table", "clause": "a supported (band, TEC) combination gives a finite positive field scaling", "input": {"band": list(band), "TEC": tec, "TEC error": err}, "observed": obs})
+                    break
+    return {"evaluations": n, "failures": fails}
 
 
 def native_batch(rng, n):
@@ -465,6 +510,7 @@ def run(ck):
     snr_term(ck)
     radio_call(ck)
     ck.bounded_run("RadioEFieldParams on aligned bands", lambda: bins(ck), design="8 fixed + 20 (quick) / 300 (thorough) seeded 10 MHz-aligned bands in [0,1650]")
+    ck.bounded_run("shipped ionosphere table", lambda: ionosphere_table(ck), design="4 bands x 6 TEC values x TEC error in {0, 0.5, 10}: parameters found, scaling finite, in (0, 1.5]")
     ck.bounded_run("real SNR chain", lambda: _wrap(native_snr(ck)), design="5 bands x 3 (h_obs, Nants, gain): negative scaling, additivity, sqrt(N), order, finiteness, frame")
     ck.bounded_run("real EASRadio with fixed random numbers", lambda: _wrap(native_radio(ck)),
                    design="4 (band, altitude) configurations evaluated in sequence in one process, 40-event batches: bins, exact zeros, finiteness, energy linearity, permutation, frame")
